@@ -14,6 +14,7 @@ import (
 
 	"hop.computer/hop/common"
 	"hop.computer/hop/keys"
+	"hop.computer/hop/pkg/verifhook"
 )
 
 // UDPLike interface standardizes Reliable channels and UDPConn.
@@ -78,6 +79,7 @@ func (c *Client) Handshake() error {
 			if !c.state.CompareAndSwap(clientStateCreated, clientStateHandshaking) {
 				continue
 			}
+			verifhook.Pause("transport.Client.Handshake:elected")
 
 			err := c.clientHandshakeLocked()
 			if err != nil {
@@ -88,6 +90,7 @@ func (c *Client) Handshake() error {
 					c.ss = nil
 				}
 			}
+			verifhook.Pause("transport.Client.Handshake:before-publish")
 			close(c.handshakeDone)
 
 			// Recheck after completion because Close may have changed the state while the handshake was running.
@@ -449,6 +452,7 @@ func (c *Client) listen() {
 	ciphertext := make([]byte, 65535)
 	for c.state.Load() == clientStateOpen {
 		msgLen, _, _, addr, err := c.underlyingConn.ReadMsgUDP(ciphertext, nil)
+		verifhook.Pause("transport.Client.listen:read")
 		if err != nil {
 			if c.state.Load() != clientStateOpen {
 				continue
@@ -630,9 +634,11 @@ func (c *Client) Close() error {
 	}
 
 closing:
+	verifhook.Pause("transport.Client.Close:elected")
 	// Closing the underlying connection is what guarantees that an in-flight
 	// handshake, read, or write cannot prevent Close from completing.
 	c.closeErr = c.underlyingConn.Close()
+	verifhook.Pause("transport.Client.Close:socket-closed")
 
 	if previous == clientStateHandshaking {
 		<-c.handshakeDone
